@@ -24,10 +24,12 @@ import (
 	"os"
 	"sort"
 	"strings"
+	"sync/atomic"
 	"testing"
 	"time"
 
 	"github.com/miekg/dns"
+	"github.com/semihalev/sdns/config"
 	"github.com/semihalev/sdns/verifharness/authkit"
 	"github.com/semihalev/sdns/verifharness/pipe"
 	"github.com/semihalev/sdns/verifharness/vh"
@@ -45,7 +47,12 @@ type caseT struct {
 	Flags  flagsT            `json:"flags"`
 	Tamper map[string]string `json:"tamper"` // position -> kind ("none" = untouched)
 	Anchor bool              `json:"anchor"`
-	Exp    struct {
+	// Fallback: is a `fallbackservers` entry configured, and what does that resolver answer?
+	//   "" / "none"  not configured (the failover middleware is inert)
+	//   "honest"     a validating resolver whose own path to the authorities is clean: the zone's truth, AD=1 when the chain is signed
+	//   "lying"      forged data with AD=1
+	Fallback string `json:"fallback"`
+	Exp      struct {
 		Rcode string `json:"rcode"`
 		AD    bool   `json:"ad"`
 	} `json:"exp"`
@@ -64,6 +71,74 @@ type world struct {
 	qname           string
 	qtype           uint16
 	rogue           *authkit.Key // the on-path attacker's own key, owner name = the target zone
+	fb              *fallbackSrv // the configured fallback resolver (nil = none)
+}
+
+// ---- the configured fallback resolver ------------------------------------------
+
+// fallbackSrv is a scripted recursive resolver on loopback, the target of `fallbackservers`.
+type fallbackSrv struct {
+	addr  string
+	mode  string
+	udp   *dns.Server
+	asked atomic.Int64
+}
+
+const forgedA = "6.6.6.66"
+
+const inflatedTTL = 7 * 86400
+
+func startFallback(w *world, mode string) (*fallbackSrv, error) {
+	pc, err := net.ListenPacket("udp", "127.0.0.1:0")
+	if err != nil {
+		return nil, err
+	}
+	f := &fallbackSrv{addr: pc.LocalAddr().String(), mode: mode}
+	h := dns.HandlerFunc(func(rw dns.ResponseWriter, r *dns.Msg) {
+		f.asked.Add(1)
+		m := new(dns.Msg)
+		m.SetReply(r)
+		m.RecursionAvailable = true
+		q := r.Question[0]
+		do := false
+		if o := r.IsEdns0(); o != nil {
+			do = o.Do()
+			m.SetEdns0(1232, do)
+		}
+		switch f.mode {
+		case "lying":
+			// whatever was asked exists and says what the attacker wants; "validated", says the AD bit
+			m.AuthenticatedData = true
+			hdr := dns.RR_Header{Name: q.Name, Rrtype: q.Qtype, Class: dns.ClassINET, Ttl: 300}
+			if q.Qtype == dns.TypeTXT {
+				m.Answer = []dns.RR{&dns.TXT{Hdr: hdr, Txt: []string{"forged"}}}
+			} else {
+				hdr.Rrtype = dns.TypeA
+				m.Answer = []dns.RR{&dns.A{Hdr: hdr, A: net.ParseIP(forgedA)}}
+			}
+		default: // honest: the zone's own answer as a validating resolver relays it
+			z := w.n.ZoneOf(q.Name)
+			if z == nil {
+				m.Rcode = dns.RcodeServerFailure
+				break
+			}
+			a, _ := z.Answer(q, do)
+			m.Rcode, m.Answer, m.Ns = a.Rcode, a.Answer, a.Ns
+			m.AuthenticatedData = w.n.GroundTruth(q).Secure && !r.CheckingDisabled
+		}
+		_ = rw.WriteMsg(m)
+	})
+	// UDP only: failover asks over UDP and would turn to TCP on a truncated reply; these replies are small
+	f.udp = &dns.Server{PacketConn: pc, Handler: h}
+	go func() { _ = f.udp.ActivateAndServe() }()
+	return f, nil
+}
+
+func (f *fallbackSrv) stop() {
+	if f == nil {
+		return
+	}
+	_ = f.udp.Shutdown()
 }
 
 func build(c caseT) (*world, error) {
@@ -135,6 +210,11 @@ func build(c caseT) (*world, error) {
 	case "rootnx":
 		w.qname = "nxtld-verif." // denied by the root zone itself
 	}
+	if c.Fallback == "honest" || c.Fallback == "lying" {
+		if w.fb, err = startFallback(w, c.Fallback); err != nil {
+			return nil, err
+		}
+	}
 	w.rogue = authkit.NewKey(zoneName, 0)
 	if c.Tamper["dnskey"] == "clonetag" && w.zone.Key0() != nil {
 		if clone := authkit.CloneTagKey(zoneName, w.zone.Key0(), 400000); clone != nil {
@@ -142,6 +222,13 @@ func build(c caseT) (*world, error) {
 		}
 	}
 	return w, nil
+}
+
+func (w *world) fbAsked() int64 {
+	if w.fb == nil {
+		return 0
+	}
+	return w.fb.asked.Load()
 }
 
 // ---- tampering ---------------------------------------------------------------
@@ -228,6 +315,15 @@ func (w *world) tamperSection(sec []dns.RR, kind string, signerZone *authkit.Zon
 		switch kind {
 		case "data":
 			alterData(set[0])
+		case "ttlup":
+			// the TTL of the RRset and of its signature raised in flight.  The signature still verifies: the signed
+			// form carries the RRSIG's Original TTL field in place of the TTL (RFC 4034 3.1.8.1)
+			for _, rr := range set {
+				rr.Header().Ttl = inflatedTTL
+			}
+			if sig != nil {
+				sig.Hdr.Ttl = inflatedTTL
+			}
 		case "sigbytes":
 			if sig != nil {
 				raw, _ := base64.StdEncoding.DecodeString(sig.Signature)
@@ -491,6 +587,12 @@ func (w *world) hookFor(pos, kind string, count *int) (*authkit.Server, func(*au
 				}
 			}
 			switch kind {
+			case "lame":
+				// a FAULT, not a tampering of signed data: the zone's server refuses the question (a lame server).
+				// Nothing is there to validate; the resolution fails for want of an answer
+				ex.Resp.Rcode = dns.RcodeRefused
+				ex.Resp.Authoritative = false
+				ex.Resp.Answer, ex.Resp.Ns = nil, nil
 			case "barenx":
 				ex.Resp.Rcode = dns.RcodeNameError
 				ex.Resp.Answer, ex.Resp.Ns = nil, nil
@@ -651,6 +753,10 @@ func effectiveAt(c caseT, pos string) bool {
 	switch {
 	case kind == "" || kind == "none" || kind == "clonetag":
 		return false
+	case kind == "ttlup":
+		return false // authenticity is intact (the TTL is not in the signed form); the lifetime is C04's subject: see ttlAboveOrig
+	case kind == "lame":
+		return false // a fault (the server refuses), not a tampering with anything a validator looks at: see lame()
 	case rootOnly && pos != "rootkey" && pos != "answer":
 		return false // the root answers the question: nothing below it is asked
 	case pos == "rootkey":
@@ -687,6 +793,17 @@ func effectiveAt(c caseT, pos string) bool {
 
 func effective(c caseT) bool {
 	return effectiveAt(c, "rootkey") || effectiveAt(c, "rootref") || effectiveAt(c, "referral") || effectiveAt(c, "dnskey") || effectiveAt(c, "answer")
+}
+
+// lame: the server that holds the answer refuses the question.  sdns can only fail (SERVFAIL, no validation verdict)
+// or, with a fallback resolver configured, relay that resolver's answer - which sdns has not validated.
+func lame(c caseT) bool { return c.Tamper["answer"] == "lame" }
+
+func fallbackOf(c caseT) string {
+	if c.Fallback == "" {
+		return "none"
+	}
+	return c.Fallback
 }
 
 func tamperString(c caseT) string {
@@ -738,6 +855,42 @@ func hasEDE(m *dns.Msg) bool {
 	return false
 }
 
+// ttlAboveOrig: the largest excess of a served TTL over what the zone's signer published for that RRset (the
+// covering RRSIG's Original TTL when the reply carries signatures, else the zone's uniform 300 s in the answer
+// section).  RFC 4035 5.3.3 has a validator cap the TTL of an authenticated RRset at the RRSIG's Original TTL; the
+// C01 statement speaks about data and AD, C04's lifetime list has no such term, so this is an OBSERVATION only.
+func ttlAboveOrig(r *dns.Msg) (uint32, string) {
+	var worst uint32
+	what := ""
+	orig := map[string]uint32{}
+	for _, sec := range [][]dns.RR{r.Answer, r.Ns} {
+		for _, rr := range sec {
+			if s, ok := rr.(*dns.RRSIG); ok {
+				orig[fmt.Sprintf("%s/%d", strings.ToLower(s.Hdr.Name), s.TypeCovered)] = s.OrigTtl
+			}
+		}
+	}
+	for si, sec := range [][]dns.RR{r.Answer, r.Ns} {
+		for _, rr := range sec {
+			h := rr.Header()
+			if h.Rrtype == dns.TypeRRSIG || h.Rrtype == dns.TypeOPT {
+				continue
+			}
+			o, ok := orig[fmt.Sprintf("%s/%d", strings.ToLower(h.Name), h.Rrtype)]
+			if !ok {
+				if si != 0 || len(orig) > 0 {
+					continue
+				}
+				o = 300
+			}
+			if h.Ttl > o && h.Ttl-o > worst {
+				worst, what = h.Ttl-o, fmt.Sprintf("%s %s served with TTL %d, signer published %d", h.Name, dns.TypeToString[h.Rrtype], h.Ttl, o)
+			}
+		}
+	}
+	return worst, what
+}
+
 // judge returns (clause, what) for the first violated predicate.
 func judge(c caseT, w *world, r *dns.Msg, edns bool) (string, string) {
 	truth := w.n.GroundTruth(dns.Question{Name: w.qname, Qtype: w.qtype, Qclass: dns.ClassINET})
@@ -746,12 +899,20 @@ func judge(c caseT, w *world, r *dns.Msg, edns bool) (string, string) {
 		wantRcode = dns.RcodeNameError
 	}
 	pathSecure := c.Anchor && (zoneSigned(c.Zone) || c.QK == "rootnx") && !effective(c)
+	src := ""
+	if w.fb != nil && w.fb.asked.Load() > 0 {
+		src = fmt.Sprintf("; the %s fallback resolver was asked %d time(s) and its answer served in place of the resolver's SERVFAIL", w.fb.mode, w.fb.asked.Load())
+	}
 	if r.AuthenticatedData {
 		if c.Flags.CD || !(c.Flags.DO || c.Flags.AD) {
 			return "ad-unasked", fmt.Sprintf("AD set toward a client with CD=%v DO=%v AD=%v", c.Flags.CD, c.Flags.DO, c.Flags.AD)
 		}
 		if !pathSecure {
-			return "ad-insecure", "AD set although the path is not secure (zone " + c.Zone + ", tamper " + tamperString(c) + ")"
+			return "ad-insecure", fmt.Sprintf("AD set although the path is not secure (zone %s, tamper %s), reply is %s with answers %v%s", c.Zone, tamperString(c), dns.RcodeToString[r.Rcode], nonSig(r.Answer), src)
+		}
+		if lame(c) {
+			// the only server holding the answer refused: whatever is in this reply, sdns validated none of it
+			return "ad-unvalidated", "AD set on a reply sdns did not validate: the answering server is lame, the data is the " + fallbackOf(c) + " fallback resolver's, its AD bit was passed through"
 		}
 	}
 	if r.Rcode == dns.RcodeServerFailure {
@@ -764,10 +925,16 @@ func judge(c caseT, w *world, r *dns.Msg, edns bool) (string, string) {
 		return "", "" // validation is off for this client; only the AD clause applies
 	}
 	if !c.Anchor {
-		return "no-anchor", fmt.Sprintf("no trust anchor configured, reply is %s not SERVFAIL", dns.RcodeToString[r.Rcode])
+		return "no-anchor", fmt.Sprintf("no trust anchor configured, reply is %s not SERVFAIL%s", dns.RcodeToString[r.Rcode], src)
 	}
 	if effective(c) {
-		return "tampered-accepted", fmt.Sprintf("tampering %s was effective on a validated path, reply is %s with answers %v", tamperString(c), dns.RcodeToString[r.Rcode], nonSig(r.Answer))
+		return "tampered-accepted", fmt.Sprintf("tampering %s was effective on a validated path, reply is %s with answers %v%s", tamperString(c), dns.RcodeToString[r.Rcode], nonSig(r.Answer), src)
+	}
+	if lame(c) && c.Fallback == "lying" {
+		// NOT judged: no response on the path was tampered with and sdns reached no validation verdict; the
+		// operator-designated fallback resolver is trusted for the data (as a forwarder is).  Only the AD bit
+		// above is sdns's own statement.  Counted as an observation by the caller.
+		return "", ""
 	}
 	if !zoneSigned(c.Zone) && c.QK != "rootnx" {
 		if k := c.Tamper["answer"]; k != "" && k != "none" {
@@ -810,8 +977,17 @@ func TestDnssecReplay(t *testing.T) {
 		if c.Anchor {
 			keys = []string{w.n.Root.Keys[0].RR.String()}
 		}
-		s, _ := pipe.NewResolverServer(pipe.ResolverOpts{RootAddr: w.n.RootSrv.Addr, RootKeys: keys, DNSSEC: true, Dir: dir, Mapper: w.n.Mapper()})
+		s, _ := pipe.NewResolverServer(pipe.ResolverOpts{RootAddr: w.n.RootSrv.Addr, RootKeys: keys, DNSSEC: true, Dir: dir, Mapper: w.n.Mapper(),
+			Mutate: func(cfg *config.Config) {
+				if w.fb != nil {
+					cfg.FallbackServers = []string{w.fb.addr}
+				}
+			}})
 		key := fmt.Sprintf("%s|%s|%v|%s|%v", c.Zone, c.QK, c.Flags, tamperString(c), c.Anchor)
+		if w.fb != nil {
+			key += "|fallback=" + w.fb.mode
+		}
+		clause0 := ""
 		for round := 0; round < 2; round++ {
 			q := new(dns.Msg)
 			q.SetQuestion(w.qname, w.qtype)
@@ -827,10 +1003,47 @@ func TestDnssecReplay(t *testing.T) {
 				res.Count("no_reply", 1)
 				continue
 			}
-			if clause, what := judge(c, w, r, edns); clause != "" {
+			if clause, what := judge(c, w, r, edns); clause != "" && round == 1 && clause == clause0 {
+				// the reply from the caches repeats the first reply's violation: one finding, not two
+				res.Count("round1_repeats_round0_violation", 1)
+			} else if clause != "" {
+				if round == 0 {
+					clause0 = clause
+				}
 				res.Violate("c01/"+clause+"/"+key+fmt.Sprintf("/round%d", round),
 					fmt.Sprintf("[zone %s, query %s %s, flags %+v, tamper %s, anchor %v, round %d] %s", c.Zone, w.qname, dns.TypeToString[w.qtype], c.Flags, tamperString(c), c.Anchor, round, what),
-					map[string]any{"driver": "c01", "case": c, "reply": r.String(), "tamper_applied": *applied})
+					map[string]any{"driver": "c01", "case": c, "reply": r.String(), "tamper_applied": *applied, "fallback_asked": w.fbAsked()})
+			}
+			if w.fb != nil && lame(c) && c.Fallback == "lying" && !c.Flags.CD && r.Rcode != dns.RcodeServerFailure {
+				res.Count("obs_lying_fallback_data_relayed_on_availability_failure", 1)
+			}
+			if r.Rcode != dns.RcodeServerFailure && zoneSigned(c.Zone) && !c.Flags.CD {
+				if over, what := ttlAboveOrig(r); over > 0 {
+					res.Count("obs_ttl_above_rrsig_original_ttl", 1)
+					if r.AuthenticatedData {
+						res.Count("obs_ttl_above_rrsig_original_ttl_with_ad", 1)
+					}
+					if round == 0 {
+						res.Count("obs_ttl_sample: "+what+" [tamper "+tamperString(c)+"]", 1)
+					}
+				}
+			}
+			// which extended error does a validation failure carry?  (diagnostic: the failover decision of a repaired
+			// tree may rest on it)
+			if round == 0 && r.Rcode == dns.RcodeServerFailure && effective(c) && c.Anchor && !c.Flags.CD {
+				code, text := "none", ""
+				if o := r.IsEdns0(); o != nil {
+					for _, e := range o.Option {
+						if ede, ok := e.(*dns.EDNS0_EDE); ok {
+							code, text = fmt.Sprint(ede.InfoCode), ede.ExtraText
+							break
+						}
+					}
+				}
+				res.Count("bogus_ede_"+code, 1)
+				if os.Getenv("C01_EDE_SURVEY") != "" {
+					res.Count(fmt.Sprintf("survey ede=%s %q tamper[%s]", code, text, tamperString(c)), 1)
+				}
 			}
 			// drift against the model's predicted outcome
 			got := "noerror"
@@ -841,7 +1054,7 @@ func TestDnssecReplay(t *testing.T) {
 				got = "nxdomain"
 			}
 			if round == 0 && (got != c.Exp.Rcode || r.AuthenticatedData != c.Exp.AD) {
-				res.DriftNote("model %s/ad=%v, code %s/ad=%v for %s (tamper applied %d times)", c.Exp.Rcode, c.Exp.AD, got, r.AuthenticatedData, key, *applied)
+				res.DriftNote("model %s/ad=%v, code %s/ad=%v for %s (tamper applied %d times, fallback asked %d)", c.Exp.Rcode, c.Exp.AD, got, r.AuthenticatedData, key, *applied, w.fbAsked())
 			}
 			if round == 0 && !effective(c) && c.Anchor && !c.Flags.CD {
 				honestAll++
@@ -852,6 +1065,13 @@ func TestDnssecReplay(t *testing.T) {
 		}
 		if effective(c) && *applied == 0 {
 			res.Count("tamper_never_applied", 1)
+		}
+		if w.fb != nil {
+			res.Count("fallback_cases", 1)
+			if w.fbAsked() > 0 {
+				res.Count("fallback_cases_asked", 1)
+			}
+			w.fb.stop()
 		}
 		if ci < 3 {
 			res.Sample(c)
